@@ -5,7 +5,7 @@ _U = HDR + ["src/http.cc", "src/clients/Client.cc", "src/refresh.cc", "src/MemOb
             "src/HttpBody.cc", "src/HttpHdrCc.cc", "src/http/RequestMethod.cc", "src/http/MethodType.cc", "src/http/StatusLine.cc", "src/http/StatusCode.cc",
             "src/anyp/UriScheme.cc", "src/anyp/ProtocolType.cc"]
 _e = lambda n, b, r, **kw: dict(name=n, bounds=b, reach=list(r), **dict(dict(jobs=1, max_samples=3, sample_every=17), **kw))
-_h = ("; b = fully symbolic byte of a field value (any value except NUL, CR, LF and -- KNOWN-FINDING candidate, see assumptions -- VT, FF); status symbolic in "
+_h = ("; b = fully symbolic byte of a field value (any value except NUL, CR, LF); status symbolic in "
       "{200,203,300,301,308,410,404}, negative_ttl symbolic 0..3600; fresh private entry received now without explicit expiry; nothing cached before")
 _K1 = ("request Cache-Control absent or any mask over the 14 recognised directives with any values; reply Cache-Control likewise, no-cache/private with or "
        "without field list; request flags auth, authSent; reply status 0..999; reply Date, Expires, Content-Length any 32-bit value; entry flags any 16-bit "
@@ -35,10 +35,7 @@ def _fam(t):
         _e("c11_hdr_auth_nocache", "request with Authorization; reply 'Cache-Control: no-cache' " + f("b b", "b b b") + _h, ("auth-not-shared", "auth-no-cache-exception-stored")),
         _e("c11_hdr_auth_smaxage", "request with Authorization; reply 'Cache-Control: " + f("s-maxage' b b", "' b '-maxage' b b") + _h, ("auth-not-shared", "auth-stored")),
     ]
-import os as _os
 SPEC = dict(
-    # C11_SHOW=1 re-admits the KNOWN-FINDING candidate class (VT/FF list items) to show its counterexample
-    defines=(["C11_SHOW=1"] if _os.environ.get("C11_SHOW") else []),
     harness="C11_nostore.cc", units=_U, unit_flags={"compat/xstring.cc": ["-Dxstrdup=vf_unused_squid_xstrdup"]},
     native_units=["src/sbuf/Algorithms.cc"],
     scope="kernel",
@@ -72,9 +69,7 @@ SPEC = dict(
            "StatHist::enumInit/count no-ops; SquidConfig Config is the real global, zero-initialised, with minimum_expiry_time, maxStale, negativeTtl set by the harness", "debugs() disabled"],
     assumptions=["'forbidden to be stored' rows and the USE_HTTP_VIOLATIONS no-cache exception exactly as listed in the header comment of harness/C11_nostore.cc; "
                  "'request with Authorization credentials' = RequestFlags::auth; rows about Cache-Control are claimed while Squid honours Cache-Control (ignoreCacheControl, "
-                 "set only by Surrogate-Control processing in accelerator mode, and http_port ignore-cc are off: neither is a default setting)",
-                 "KNOWN-FINDING candidate excluded from K2 by vf_assume: VT/FF bytes at the symbolic positions of a Cache-Control value (a list item made only of VT/FF ends "
-                 "strListGetItem()'s iteration -- the C29 list-splitter candidate -- so 'Cache-Control: public, <VT>, no-store' is stored)"],
+                 "set only by Surrogate-Control processing in accelerator mode, and http_port ignore-cc are off: neither is a default setting)"],
     outside="Cache-Control texts other than the listed families (HttpHdrCc::parse itself is C29); refresh_pattern lines incl. ignore-no-store/ignore-private/store-stale; "
             "Vary; everything listed under gap",
 )
